@@ -268,6 +268,20 @@ func init() {
 		fr.vc.declareUF("itoa", "(Int) Str")
 		return Val{T: rt, S: []Term{sx("itoa", args[0].S[0])}}
 	})
+	// intstr.IntOrString{Type, IntVal, StrVal}.IntValue(): the integer for Type==Int,
+	// else the string parsed (0 when it is not a number); a function of the content
+	pure("(*intstr.IntOrString).IntValue", func(fr *Frame, st *State, args []Val, rt types.Type) Val {
+		vc := fr.vc
+		vc.declareUF("atoi", "(Str) Int")
+		vc.declareUF("atoi_ok", "(Str) Bool")
+		hI := vc.get(st, vc.heapKey(KI))
+		hS := vc.get(st, vc.heapKey(KS))
+		r, o := args[0].S[0], args[0].S[1]
+		typ := tSel2(hI, r, o)
+		iv := tSel2(hI, r, tAdd(o, "1"))
+		sv := tSel2(hS, r, tAdd(o, "2"))
+		return Val{T: rt, S: []Term{tIte(tEq(typ, "0"), iv, tIte(sx("atoi_ok", sv), sx("atoi", sv), "0"))}}
+	})
 	pure("strconv.Atoi", func(fr *Frame, st *State, args []Val, rt types.Type) Val {
 		vc := fr.vc
 		vc.declareUF("atoi", "(Str) Int")
